@@ -31,6 +31,12 @@ structure Shard where
 /-- `parseMetadata`: a non-empty sidecar takes precedence over the embedded metadata -/
 def Shard.load (s : Shard) : List Repo := s.side.getD s.base
 
+/-- loading a shard when reading the sidecar can fail (`os.ReadFile` returning an error other than not-exist: EMFILE,
+    EACCES, EIO …): `parseMetadata` then fails and the shard is not loaded — it never falls back to the embedded metadata,
+    which knows nothing of tombstones.  `none` = the load failed. -/
+def Shard.loadIO (s : Shard) (readOk : Bool) : Option (List Repo) :=
+  if readOk then some s.load else none
+
 /-- the loop of `setTombstone`: every repository with that ID gets the flag -/
 def flip (repos : List Repo) (id : Nat) (t : Bool) : List Repo :=
   repos.map fun r => if r.id = id then { r with tomb := t } else r
